@@ -149,6 +149,19 @@ ConstRes(n) ==
       [] n = "log.Lmsgprefix" -> [i |-> 64, s |-> ""]
       [] n = "log.LstdFlags" -> [i |-> 3, s |-> ""]
 
+(* Config.Level is a slog.Leveler: the application may hand in a              *)
+(* *slog.LevelVar (at v0) and set it (to v1) after New.  Every format follows *)
+(* the change except jsonhybrid, whose handler reads the Leveler once when it *)
+(* is constructed (what the code does; slogutil's documentation is silent,    *)
+(* slog.HandlerOptions.Level says "the handler calls Level.Level for each     *)
+(* record processed").  The answer is Enabled(l) after the change.            *)
+RelevelRes(f, v0, v1, l) == [enabled |-> l >= (IF f = "jsonhybrid" THEN v0 ELSE v1)]
+
+(* log.SetFlags "sets the output flags for the default logger": the std      *)
+(* logger's flags afterwards.                                                 *)
+FlagSets == {0, 1, 2, 3, 4, 7, 8, 16, 32, 64, 67, 127}
+FlagsRes(n) == [i |-> n, s |-> ""]
+
 AllConstNames == {"slogutil.LevelTrace", "slogutil.LevelDebug", "slogutil.LevelInfo", "slogutil.LevelWarn",
                   "slogutil.LevelError", "slogutil.KeyError", "slogutil.KeyPrefix", "slogutil.KeyMessage",
                   "slogutil.KeySource", "slogutil.KeyTime", "slogutil.KeyLevel", "slogutil.FormatAdGuardLegacy",
@@ -168,6 +181,8 @@ Predict(it) ==
       [] it[1] = "replacelevel" -> ReplLevelRes(it[2], it[3], it[4])
       [] it[1] = "removetime"   -> RemoveTimeRes(it[2], it[3], it[4])
       [] it[1] = "const"     -> ConstRes(it[2])
+      [] it[1] = "flags"     -> FlagsRes(it[2])
+      [] it[1] = "relevel"   -> RelevelRes(it[2], it[3], it[4], it[5])
 
 (* ReplaceLevel is not asked about a top-level attribute named "level" whose  *)
 (* value is not a slog.Level (it panics; a separate, known side finding).     *)
@@ -179,6 +194,9 @@ KInit == \/ \E c \in Cfgs, l \in RecLevels, sh \in Shapes : item = <<"new", c, l
          \/ \E g \in BOOLEAN, k \in AttrKeys, v \in ValKinds : ReplOK(g, k, v) /\ item = <<"replacelevel", g, k, v>>
          \/ \E g \in BOOLEAN, k \in AttrKeys, v \in ValKinds : item = <<"removetime", g, k, v>>
          \/ \E n \in ConstNames : item = <<"const", n>>
+         \/ \E n \in FlagSets : item = <<"flags", n>>
+         \/ \E f \in ValidFormats, v0 \in {-4, 0, 4}, v1 \in {-8, 2, 8}, l \in RecLevels :
+                item = <<"relevel", f, v0, v1, l>>
 
 KSpec == KInit /\ [][FALSE]_item
 
@@ -205,6 +223,12 @@ VerbosityLattice ==
                                                           ConstRes("slogutil.LevelDebug").i,
                                                           ConstRes("slogutil.LevelTrace").i}
         /\ \A m \in 0..2 : (VerbRes(item[2]).ok /\ m > item[2]) => VerbRes(m).lvl < VerbRes(item[2]).lvl
+
+(* A LevelVar that is not touched behaves like the constant level. *)
+RelevelIdentity ==
+    item[1] = "relevel" =>
+        LET c == [nil |-> FALSE, fmt |-> item[2], lv |-> [set |-> TRUE, v |-> item[3]], ts |-> FALSE, out |-> "buf"]
+        IN RelevelRes(item[2], item[3], item[3], item[5]).enabled = IsEnabled(c, item[5])
 
 (* Only Trace is renamed, and only by the structured formats. *)
 OnlyTraceRenamed ==
